@@ -143,6 +143,7 @@ def run_cfg(ctx, p, cfg):
     with ctx.rule("A1", "character counting", cfg) as r:
         rule_char_counting(r, p)
     from rules import c09
+    c09.rule_group_children(ctx, p, cfg, "A9")  # .. and every nested `{..}` stays a child of its group
     c09.rule_arm_results(ctx, p, cfg, "A8")     # "the law composes through nested groups": every `{..}` keeps its own layer and its own parameters
 
     run_cfg_rest(ctx, p, cfg)
